@@ -31,7 +31,7 @@ MANIFEST = {
     "text": "All programs in the bounded family are read by the real reader; character conservation, row integrity, ordering and exact end-to-start chaining are checked on each.",
     "note": "Bounds: rows per stream, three text shapes, three gaps, segment sequences up to length 2 (quick) / 3 (thorough).",
 }
-SHAPES = [lambda L: L + L.lower() + L + L.lower(), lambda L: L + L.lower() + " " + L + "d", lambda L: L]
+SHAPES = [lambda L: L + L.lower() + L + L.lower(), lambda L: L + L.lower() + " " + L + "d", lambda L: L, lambda L: (L + L.lower()) * 16]
 LETTERS = "ABCDEFGHJK"
 GAPS = [0, 1, 30]
 
@@ -129,11 +129,8 @@ def evaluate(segs, d, sep, gap, chain):
                 break
     times = [(c.start, c.end) for c in caps]
     for i, (s, e) in enumerate(times):
-        if not (s < e) and chain:
+        if not (s < e):
             v.append(("start-not-before-end", {"times": times, "doc": doc}))
-            break
-        if s > e:
-            v.append(("start-after-end", {"times": times, "doc": doc}))
             break
     for i in range(len(times) - 1):
         if times[i][0] > times[i + 1][0]:
@@ -218,6 +215,7 @@ def run_shard(d):
     if d["k"] == "roll":
         n = d["n"]
         shape_sets = list(itertools.product(range(3), repeat=n)) if n <= 4 else [tuple((i + j) % 3 for i in range(n)) for j in range(3)] + [tuple([0] * n), tuple([2] * n)]
+        shape_sets += [tuple(3 if i == j else (i % 3) for i in range(n)) for j in range(n)]  # one row uses all 32 columns
         for shapes in shape_sets:
             for base_pat in (0, 1, 2, 3):
                 for every in (True, False):
@@ -229,8 +227,17 @@ def run_shard(d):
         n = d["n"]
         rowpats = [[15] * n, [14, 15] * n, list(range(1, 16))]
         shape_sets = list(itertools.product(range(3), repeat=n)) if n <= 4 else [tuple((i + j) % 3 for i in range(n)) for j in range(3)]
+        shape_sets += [tuple(3 if i == j else (i % 3) for i in range(n)) for j in range(n)]
         for shapes in shape_sets:
             texts = texts_for(shapes)
+            # non-adjacent rows painted after one RDC: captions sharing their times (no chaining clause, but
+            # conservation, order and start < end still hold)
+            if n >= 2:
+                rows_na = [1, 5, 9, 13, 3, 11, 7, 15][:n]
+                for dd in (1, 2):
+                    for final_rdc in (False, True):
+                        segs = [[(r, t) for r, t in zip(rows_na, texts)]] + ([[(15, "Zz")]] if final_rdc else [])
+                        run([("paint", segs)], dd, ":", 30, False, "paint-on-non-adjacent-rows")
             for rp in rowpats:
                 for two in (False, True):
                     segs = []
